@@ -164,9 +164,9 @@ theorem inv_stepExpr (hS : Sound S r C) (hR : RecInv r C R) (e : Expr) (h : e.ok
     simp only [stepExpr]
     exact inv_bind (hE a (by simpa [Expr.ok] using h)) fun _ => inv_bind (pres_truthy _).inv fun _ => inv_pure _ _
   | index l i =>
-    have h' : l.ok C = true ∧ i.ok C = true := by simpa [Expr.ok] using h
+    have h' : (C.index = true ∧ l.ok C = true) ∧ i.ok C = true := by simpa [Expr.ok] using h
     simp only [stepExpr]
-    exact inv_bind (hE l h'.1) fun _ => inv_bind (hE i h'.2) fun _ => (pres_indexVal _ _).inv
+    exact inv_bind (hE l h'.1.2) fun _ => inv_bind (hE i h'.2) fun _ => (pres_indexVal _ _).inv
   | slice l lo hi =>
     have h' : (l.ok C = true ∧ Expr.okOpt C lo = true) ∧ Expr.okOpt C hi = true := by simpa [Expr.ok] using h
     simp only [stepExpr]
